@@ -55,6 +55,9 @@ type tryFrame struct {
 	privEnv *privateEnv
 
 	catchPos, finallyPos, finallyRet int32
+
+	// the pending result (return value) of the abrupt completion that entered the 'finally' block
+	result Value
 }
 
 type execCtx struct {
@@ -4847,6 +4850,7 @@ func (leaveTry) exec(vm *vm) {
 	tf := &vm.tryStack[len(vm.tryStack)-1]
 	if tf.finallyPos >= 0 {
 		tf.finallyRet = int32(vm.pc + 1)
+		tf.result = vm.result
 		vm.pc = int(tf.finallyPos)
 		tf.finallyPos = -1
 		tf.catchPos = -1
@@ -4870,14 +4874,19 @@ type leaveFinally struct{}
 
 func (leaveFinally) exec(vm *vm) {
 	tf := &vm.tryStack[len(vm.tryStack)-1]
-	ex, ret := tf.exception, tf.finallyRet
+	ex, ret, result := tf.exception, tf.finallyRet, tf.result
 	tf.exception = nil
+	tf.result = nil
 	vm.popTryFrame()
 	if ex != nil {
 		vm.throw(ex)
 		return
 	} else {
 		if ret != -1 {
+			// a cancelled 'return' inside the finally block must not replace the pending result
+			if result != nil {
+				vm.result = result
+			}
 			vm.pc = int(ret)
 		} else {
 			vm.pc++
